@@ -358,7 +358,7 @@ func genDispatch4Conc(c *ctx) {
 		fs := make([]func() string, len(ops))
 		for i := range fs {
 			i := i
-			fs[i] = func() string { res[i] = dg4Result(ops[i]); return "done" }
+			fs[i] = func() string { res[i] = dg4Result(ops[i], false); return "done" }
 		}
 		together(fs)
 		// dispatch is stateless: any order explains correct outcomes; one wrong outcome is explained by none
